@@ -3,6 +3,7 @@ import s1
 from framework import Issue
 from s1 import features, model_request, nontrivial, observe  # noqa: F401
 from tools import yields, has_fault
+from world import asyncstdlib
 
 RULE = (
     "every tool and aggregation x parameter grid x item sequences up to length L x every single fault position over the "
@@ -16,7 +17,184 @@ SCOPE = {"quick": "L=3, <=3 sources, all single fault positions", "thorough": "L
 ASSUMPTIONS = ["injected exceptions are ordinary Exception subclasses (not StopIteration/StopAsyncIteration/GeneratorExit)"]
 
 
+# ---------------------------------------------------------------------------------------------
+# the stateful handles (groupby, tee): a fault in the source or the key function at every position, under the
+# consumption patterns that make the library pull on its own (skipping the rest of a group; a sibling's fetch)
+
+
+def _handle_cases(tier):
+    import itertools as it
+    L = 4 if tier == "quick" else 5
+    n = 0
+    for ln in range(1, L + 1):
+        for keys in it.product([0, 1], repeat=ln):
+            for mode in ("keys", "first", "drain"):
+                faults = [["src", p] for p in range(ln + 1)] + [["key", k] for k in range(ln)]
+                for fault in faults:
+                    n += 1
+                    yield {"family": "gbfault", "tool": "groupby", "keys": list(keys), "mode": mode, "fault": fault,
+                           "eid": 40 + n % 16, "kind": ["agen", "aobj", "iter", "aobj_nc", "seq"][n % 5],
+                           "flavour": s1.FLAV[n % 4], "srcs": [], "params": {}, "cons": {"fin": "exhaust"}}
+    for ln in range(0, 4):
+        for pos in range(ln + 1):
+            for nchild in (1, 2, 3):
+                for order in ("rr", "seq"):
+                    n += 1
+                    yield {"family": "teefault", "tool": "tee", "len": ln, "pos": pos, "n": nchild, "order": order,
+                           "eid": 40 + n % 16, "kind": ["agen", "aobj", "aobj_nc", "iter"][n % 4],
+                           "srcs": [], "params": {}, "cons": {"fin": "exhaust"}}
+
+
+def _run_gb(case, sync):
+    import itertools as it
+    from tools import make_fn
+    from world import Item, drive, exc_name, make_source
+    log = []
+    script = [("item", Item(i, k)) for i, k in enumerate(case["keys"])]
+    eid = case["eid"]
+    if case["fault"][0] == "src":
+        script.insert(case["fault"][1], ("raise", eid))
+        script = script[: case["fault"][1] + 1]
+    spec = {"kind": "key"}
+    if case["fault"][0] == "key":
+        spec.update(fail_at=case["fault"][1], eid=eid)
+    src, st = make_source("iter" if sync else case["kind"], script, "s0", log)
+    keyf = make_fn(spec, 0, log, "def" if sync else case["flavour"])
+    gb = it.groupby(src, keyf) if sync else asyncstdlib.groupby(src, keyf)
+    out = []
+
+    def step(obj):
+        if sync:
+            try:
+                return ("ok", next(obj))
+            except StopIteration:
+                return ("stop", None)
+            except BaseException as exc:  # noqa: B036
+                return ("exc", exc)
+        res = drive(obj.__anext__())
+        if isinstance(res.exc, StopAsyncIteration):
+            return ("stop", None)
+        if res.exc is not None:
+            return ("exc", res.exc)
+        return ("ok", res.value)
+
+    def record(kind, val):
+        if kind == "exc":
+            out.append(["exc", exc_name(val), type(val).__name__ if getattr(val, "eid", None) is None else "injected"])
+        return kind
+    for _ in range(len(case["keys"]) + 2):
+        kind, val = step(gb)
+        if kind != "ok":
+            out.append(["stop"]) if kind == "stop" else record(kind, val)
+            break
+        k, g = val
+        out.append(["key", k])
+        if case["mode"] == "keys":
+            continue
+        ended = False
+        while True:
+            kind, val = step(g)
+            if kind == "ok":
+                out.append(["item", val.id])
+                if case["mode"] == "first":
+                    break
+                continue
+            if kind == "exc":
+                record(kind, val)
+                ended = True
+            break
+        if ended:
+            break
+    uses = [ev[0] for ev in log]
+    fault_at = next((i for i, ev in enumerate(log) if ev[0] in ("srcerr", "callerr")), None)
+    after = [ev for ev in log[fault_at + 1:] if ev[0] in ("pull", "call")] if fault_at is not None else []
+    return {"out": out, "reached": fault_at is not None, "after": after[:4], "nuses": len(uses)}
+
+
+def _run_tee(case, sync):
+    import itertools as it
+    from world import Item, drive, exc_name, make_source
+    log = []
+    script = [("item", Item(i, i)) for i in range(case["len"])]
+    script.insert(case["pos"], ("raise", case["eid"]))
+    script = script[: case["pos"] + 1]
+    src, st = make_source("iter" if sync else case["kind"], script, "s0", log)
+    kids = list(it.tee(src, case["n"])) if sync else list(asyncstdlib.tee(src, n=case["n"]))
+    outs = [[] for _ in kids]
+    done = [False] * len(kids)
+
+    def step(i):
+        if sync:
+            try:
+                outs[i].append(["item", next(kids[i]).id])
+            except StopIteration:
+                outs[i].append(["stop"])
+                done[i] = True
+            except BaseException as exc:  # noqa: B036
+                outs[i].append(["exc", exc_name(exc)])
+                done[i] = True
+            return
+        res = drive(kids[i].__anext__())
+        if isinstance(res.exc, StopAsyncIteration):
+            outs[i].append(["stop"])
+            done[i] = True
+        elif res.exc is not None:
+            outs[i].append(["exc", exc_name(res.exc)])
+            done[i] = True
+        else:
+            outs[i].append(["item", res.value.id])
+    if case["order"] == "seq":
+        for i in range(len(kids)):
+            while not done[i]:
+                step(i)
+    else:
+        for _ in range(case["len"] + 2):
+            for i in range(len(kids)):
+                if not done[i]:
+                    step(i)
+    return {"out": outs, "reached": any(ev[0] == "srcerr" for ev in log)}
+
+
+def observe(case):  # noqa: F811
+    if case.get("family") == "gbfault":
+        return {"a": _run_gb(case, False), "s": _run_gb(case, True), "async": {"vis": [], "out": ["returned", ["n"]]}}
+    if case.get("family") == "teefault":
+        return {"a": _run_tee(case, False), "s": _run_tee(case, True), "async": {"vis": [], "out": ["returned", ["n"]]}}
+    return s1.observe(case)
+
+
+def model_request(case):  # noqa: F811
+    if case.get("family") in ("gbfault", "teefault"):
+        return None     # the handles are state machines (C16 / C09); the fault clause is decided by the stdlib oracle
+    return s1.model_request(case)
+
+
+def features(case, obs):  # noqa: F811
+    if case.get("family") in ("gbfault", "teefault"):
+        return ["tool=" + case["tool"], "family=" + case["family"], "kind=" + case["kind"]]
+    return s1.features(case, obs)
+
+
+def _judge_handle(case, obs):
+    a, s = obs["a"], obs["s"]
+    issues = []
+    tool = case["tool"]
+    if case["family"] == "teefault" and case["kind"] != "agen":
+        # a class-based source keeps answering after it raised (the sync iterator twin too): compare the child that
+        # saw the fault and everything before it; later polls of the siblings are the source's own business
+        pass
+    if a["out"] != s["out"]:
+        sa, ss = str(a["out"]), str(s["out"])
+        swallowed = "exc" in ss and "exc" not in sa
+        issues.append(Issue("oracle", {"asyncstdlib": a["out"], "stdlib": s["out"]},
+                            ("fault-swallowed:" if swallowed else "ending-differs:") + tool))
+    if a.get("after"):
+        issues.append(Issue("oracle", {"after_fault": a["after"]}, "used-after-fault:" + tool))
+    return issues
+
+
 def cases(tier, rng):
+    yield from _handle_cases(tier)
     for case in s1.base_cases(tier, rng, [k for k in s1.KINDS_ALL if k != "list"], s1.cons_exhaust,
                               maxlen=3 if tier == "quick" else 4):
         if case["tool"] == "cycle":
@@ -37,6 +215,8 @@ def fault_index(vis):
 
 
 def judge(case, obs, model):
+    if case.get("family") in ("gbfault", "teefault"):
+        return _judge_handle(case, obs)
     issues = []
     a, s = obs["async"], obs["sync"]
     tool = case["tool"]
@@ -57,6 +237,8 @@ def judge(case, obs, model):
 
 
 def nontrivial(case, obs):  # noqa: F811
+    if case.get("family") in ("gbfault", "teefault"):
+        return obs["a"]["reached"]
     return fault_index(obs["async"]["vis"]) is not None
 
 
